@@ -213,6 +213,9 @@ class SoINumerical(_SoI, KeplerNum):
                 soi = self._soi(orb)
                 if soi != current:
                     break
+            else:
+                # The stop date is reached without any change of SoI
+                break
 
             start = orb.date
 
